@@ -81,6 +81,8 @@ js::Value Op::to_json() const
         s.set("garbage_seed", Value::U(garbage_seed));
         if (main_first)
             s.set("main_first", Value::Bool(true));
+        if (misaligned_bufs)
+            s.set("misaligned_caller_buffers", Value::Bool(true));
         if (strategy == sim::ST_REPLAY)
         {
             Value arr = Value::Arr();
@@ -143,6 +145,7 @@ Op Op::from_json(const js::Value &v)
         o.dirty_bufs = s->getb("dirty_caller_buffers");
         o.garbage_seed = s->getu("garbage_seed", 0);
         o.main_first = s->getb("main_first");
+        o.misaligned_bufs = s->getb("misaligned_caller_buffers");
         if (const js::Value *arr = s->find("schedule"))
             for (auto &e : arr->a)
                 if (e.a.size() == 4)
@@ -197,7 +200,7 @@ struct Gen
     const GenLimits &lim;
     bool fault_free;
     // swarm: which fault kinds this run may use
-    bool en_shortfall, en_dirty_heap, en_dirty_bufs, en_icv, en_fine;
+    bool en_shortfall, en_dirty_heap, en_dirty_bufs, en_icv, en_fine, en_misalign;
     Gen(uint64_t seed, const GenLimits &l) : r(seed), lim(l) {}
 
     unsigned pick_log(unsigned maxlog)
@@ -279,7 +282,7 @@ struct Gen
     }
     uint32_t pick_obj_threads()
     {
-        static const uint32_t t[] = {1, 2, 2, 3, 4, 4, 5, 7, 8, 16, 31, 64, 1000, 0};
+        static const uint32_t t[] = {1, 2, 2, 3, 4, 4, 5, 6, 7, 8, 12, 16, 31, 64, 100, 128, 1000, 0};
         return r.pick(t);
     }
     int pick_input()
@@ -300,6 +303,7 @@ struct Gen
         o.shortfall = en_shortfall && r.chance(1, 2);
         o.dirty_heap = en_dirty_heap && r.chance(3, 4);
         o.dirty_bufs = en_dirty_bufs && r.chance(3, 4);
+        o.misaligned_bufs = en_misalign && r.chance(1, 2);
         if (lim.coarse || !en_fine)
         {
             o.strategy = r.chance(1, 4) ? sim::ST_SERIAL_IDENTITY : sim::ST_SERIAL_PERM;
@@ -414,7 +418,7 @@ struct Gen
         default:
             o.batch = r.range(1, o.cols + 3);
         }
-        static const int t[] = {0, 1, 2, 3, 4, 8, 16, 64};
+        static const int t[] = {0, 1, 2, 3, 4, 5, 6, 7, 8, 12, 16, 24, 64, 128};
         switch (r.below(ambient_bias ? 4 : 8))
         {
         case 0:
@@ -490,10 +494,10 @@ struct Gen
     void gen_icv(Op &o)
     {
         o.kind = K_HOST_ICV;
-        static const int t[] = {1, 2, 3, 4, 6, 8, 12, 16, 32, 64};
+        static const int t[] = {1, 2, 3, 4, 5, 6, 7, 8, 12, 16, 32, 64, 128};
         o.icv_nthreads = r.chance(3, 4) ? r.pick(t) : -1;
         o.icv_dyn = r.chance(1, 2) ? (int)r.below(2) : -1;
-        static const int l[] = {1, 2, 3, 4, 8, 16, 64};
+        static const int l[] = {1, 2, 3, 4, 8, 16, 64, 128};
         o.icv_limit = r.chance(1, 3) ? r.pick(l) : -1;
     }
 };
@@ -512,10 +516,11 @@ Plan generate(const std::string &profile, uint64_t seed, const GenLimits &lim)
     g.en_dirty_bufs = r.chance(3, 4);
     g.en_icv = r.chance(2, 3);
     g.en_fine = r.chance(5, 6);
-    static const int cores[] = {1, 2, 3, 4, 4, 6, 8, 8, 12, 16, 32, 64};
-    static const int limits[] = {1, 2, 3, 4, 8, 16, 64, 64, 64, 64};
+    g.en_misalign = r.chance(1, 2);
+    static const int cores[] = {1, 2, 3, 4, 4, 6, 8, 8, 12, 16, 32, 64, 96, 128};
+    static const int limits[] = {1, 2, 3, 4, 8, 16, 64, 64, 64, 64, 128, 128};
     p.machine.nthreads_var = r.pick(cores);
-    p.machine.thread_limit = p.fault_free ? 64 : r.pick(limits);
+    p.machine.thread_limit = p.fault_free ? 128 : r.pick(limits);
     p.machine.dyn = p.fault_free ? false : r.chance(1, 3);
 
     unsigned slot_log[2];
